@@ -47,6 +47,10 @@ def run(ctx):
     preview_closure(ctx, r1, roots["status"], {}, "status")
     preview_closure(ctx, r1, roots["run"], {"dry_run": True}, "run --dry-run")
 
+    from .evalhelpers import cached_witness, report_witness, run_command_witness
+    report_witness(r1, "src/gwf/plugins/run.py::run::witness-project", "src/gwf/plugins/run.py:1", cached_witness(ctx, "run", run_command_witness),
+                   "hashes are recorded for exactly the accepted submissions, none on a dry run or for a rejected submission",
+                   select=lambda d: "hash" in d or "ends with" in d)
     r2 = ctx.rule("R2", "the use_spec_hashes switch (default off) selects the store; the disabled store is effect-free and never reports a change", min_instances=4)
     from .evalhelpers import eval_get_spec_hashes
     from .shared import rule_config_switch
